@@ -4,14 +4,15 @@
 (*     join(inputs, on, renames, defaults)                                           api "join" *)
 (* on real dictables, with the abstract configuration the driver rendered (o.c, same JSON shape *)
 (* as the generator of MC_Perdictable prints), the day of the call (o.today), the projected     *)
-(* result (o.out) and, for "run", every argument tuple the counting function F received          *)
+(* result (o.out), whether `on` named the key columns in alphabetical order (o.alpha) and,  *)
+(* for "run", every argument tuple the counting function F received          *)
 (* (o.calls, in call order - read as a bag).                                                     *)
 EXTENDS Perdictable, Batch
 
 RowKeys(rows)   == {rows[n].key : n \in 1..Len(rows)}
 UniqueKeys(rows)== Cardinality(RowKeys(rows)) = Len(rows)
 MapOfRows(rows) == [k \in RowKeys(rows) |-> rows[CHOOSE n \in 1..Len(rows) : rows[n].key = k].v]
-OptOf(x)        == IF x.kind = "absent" THEN <<>> ELSE <<MapOfRows(x.rows)>>
+OptOf(x)        == IF x.kind = "absent" THEN <<>> ELSE IF x.kind = "scalar" THEN <<"scalar", x.v>> ELSE <<MapOfRows(x.rows)>>
 CfgOf(o) == [ins    |-> [i \in 1..Len(o.c.ins) |-> [kind |-> o.c.ins[i].kind, v |-> o.c.ins[i].v, map |-> MapOfRows(o.c.ins[i].rows)]],
              defs   |-> o.c.defs,
              data   |-> OptOf(o.c.data),
@@ -22,28 +23,28 @@ WellFormed(o) == /\ \A i \in 1..Len(o.c.ins) : UniqueKeys(o.c.ins[i].rows)
                  /\ Len(o.c.defs) = Len(o.c.ins)
 
 \* the rows of a returned table, clause by clause
-TableVerdict(cf, nk, out, cols, pre) ==
+TableVerdict(cf, nk, alpha, out, cols, pre) ==
     IF out.kind = "empty" THEN pre \o "key_set"                 \* rows are expected, none came back
     ELSE IF out.kind # "table" THEN pre \o "not_a_table"
     ELSE IF out.cols # cols THEN pre \o "columns"
     ELSE IF RowKeys(out.rows) # JoinKeys(cf) \/ ~UniqueKeys(out.rows) THEN pre \o "key_set"
-    ELSE IF [n \in 1..Len(out.rows) |-> out.rows[n].key] \notin KeyOrders(JoinKeys(cf), nk) THEN pre \o "not_sorted_by_key"
+    ELSE IF [n \in 1..Len(out.rows) |-> out.rows[n].key] \notin KeyOrders(JoinKeys(cf), nk, alpha) THEN pre \o "not_sorted_by_key"
     ELSE ""
 
 RunVerdict(o) ==
     LET cf == CfgOf(o)  nk == o.c.nk  out == o.out  want == RunCalls(cf, nk) IN
     IF out.kind = "exc" THEN "raised"
     ELSE IF AllScalar(cf) THEN
-         IF out \notin RunOutcomes(cf, nk) THEN "scalar_result"
+         IF out \notin RunOutcomes(cf, nk, o.alpha) THEN "scalar_result"
          ELSE IF o.calls # want THEN "scalar_calls" ELSE ""
     ELSE IF JoinKeys(cf) = {} THEN
-         IF out \notin RunOutcomes(cf, nk) THEN "empty_join"
+         IF out \notin RunOutcomes(cf, nk, o.alpha) THEN "empty_join"
          ELSE IF o.calls # <<>> THEN "extra_call" ELSE ""
-    ELSE LET tv == TableVerdict(cf, nk, out, RunCols(nk), "") IN
+    ELSE LET tv == TableVerdict(cf, nk, o.alpha, out, RunCols(nk), "") IN
          IF tv # "" THEN tv
          ELSE IF \E n \in 1..Len(out.rows) : CachedPast(cf, out.rows[n].key) /\ out.rows[n].v # cf.data[1][out.rows[n].key] THEN "kept_value"
          ELSE IF \E n \in 1..Len(out.rows) : ~CachedPast(cf, out.rows[n].key) /\ out.rows[n].v # F(Args(cf, out.rows[n].key)) THEN "computed_value"
-         ELSE IF out \notin RunOutcomes(cf, nk) THEN "not_accepted"
+         ELSE IF out \notin RunOutcomes(cf, nk, o.alpha) THEN "not_accepted"
          ELSE IF \E x \in Range(o.calls) : Count(o.calls, x) > Count(want, x) THEN "extra_call"
          ELSE IF \E x \in Range(want) : Count(o.calls, x) < Count(want, x) THEN "missing_call"
          ELSE IF ~SameBag(o.calls, want) THEN "calls" ELSE ""
@@ -51,11 +52,11 @@ RunVerdict(o) ==
 JoinVerdict(o) ==
     LET cf == CfgOf(o)  nk == o.c.nk  out == o.out IN
     IF out.kind = "exc" THEN "join_raised"
-    ELSE IF JoinKeys(cf) = {} THEN (IF out \in JoinOutcomes(cf, nk) THEN "" ELSE "join_empty")
-    ELSE LET tv == TableVerdict(cf, nk, out, JoinCols(cf, nk), "join_") IN
+    ELSE IF JoinKeys(cf) = {} THEN (IF out \in JoinOutcomes(cf, nk, o.alpha) THEN "" ELSE "join_empty")
+    ELSE LET tv == TableVerdict(cf, nk, o.alpha, out, JoinCols(cf, nk), "join_") IN
          IF tv # "" THEN tv
          ELSE IF \E n \in 1..Len(out.rows) : out.rows[n].vals # Args(cf, out.rows[n].key) THEN "join_values"
-         ELSE IF out \notin JoinOutcomes(cf, nk) THEN "join_not_accepted" ELSE ""
+         ELSE IF out \notin JoinOutcomes(cf, nk, o.alpha) THEN "join_not_accepted" ELSE ""
 
 \* clause names starting with "harness_" are errors of the driver, not of the library
 Verdict(o) ==
